@@ -28,6 +28,8 @@ class Extractor:
         self.leaves = []
         self.max_leaves = max_leaves
         self.stop_at_loops = stop_at_loops
+        self.leaf_effects = []     # per leaf: the calls made along the path, in order: (callee def, [arg terms])
+        self._eff = []
 
     def place_term(self, env, pl):
         key = pl["l"]
@@ -123,12 +125,14 @@ class Extractor:
         self.walk(0, {}, [], set())
         return self.leaves
 
-    def walk(self, bi, env, conds, onpath):
+    def walk(self, bi, env, conds, onpath, effects=()):
         b = self.b
+        effects = list(effects)
         while True:
             if bi in onpath:
                 if self.stop_at_loops:
                     self.leaves.append((list(conds), ("loop", dict(env))))
+                    self.leaf_effects.append(list(effects))
                     return
                 raise NotATable("loop in %s" % b.qname)
             onpath = onpath | {bi}
@@ -151,6 +155,7 @@ class Extractor:
             if k == "return":
                 res = env.get(0, ("opaque", "unset return"))
                 self.leaves.append((list(conds), res))
+                self.leaf_effects.append(list(effects))
                 if len(self.leaves) > self.max_leaves:
                     raise NotATable("too many leaves")
                 return
@@ -181,6 +186,8 @@ class Extractor:
                         res = ("call", mc[0], args, name) if len(mc) == 1 else ("call", c["id"], args, name)
                     else:
                         res = ("call", c["id"], args, name)
+                if c is not None:
+                    effects.append((c["def"], args))
                 if t["target"] is None:
                     return
                 if not t["dest"]["p"]:
@@ -201,16 +208,17 @@ class Extractor:
                         env2 = dict(env)
                         if v == 0:
                             self._bind_continue(env2, t, d[1][1])
-                            self.walk(tgt, env2, conds + [("ok", d[1][1])], onpath)
+                            self.walk(tgt, env2, conds + [("ok", d[1][1])], onpath, effects)
                         else:
                             self.leaves.append((conds + [("err", d[1][1])], ("variant", "std::result::Result", "Err",
                                                                              [("opaque", "propagated")], ("0",))))
+                            self.leaf_effects.append(list(effects))
                     return
                 seen_vals = []
                 for v, tgt in arms:
-                    self.walk(tgt, env, conds + [("eq", d, v)], onpath)
+                    self.walk(tgt, env, conds + [("eq", d, v)], onpath, effects)
                     seen_vals.append(v)
-                self.walk(t["otherwise"], env, conds + [("notin", d, tuple(seen_vals))], onpath)
+                self.walk(t["otherwise"], env, conds + [("notin", d, tuple(seen_vals))], onpath, effects)
                 return
             raise NotATable("terminator %s in %s" % (k, b.qname))
 
@@ -367,6 +375,8 @@ class Evaluator:
                 return v.f[t[2]]
             if isinstance(v, tuple) and v and v[0] == "closure" and isinstance(t[2], int) and t[2] < len(v[2]):
                 return v[2][t[2]]
+            if isinstance(v, tuple) and isinstance(t[2], int) and t[2] < len(v) and not (v and isinstance(v[0], str) and v[0] in ("closure", "fnitem", "slice")):
+                return v[t[2]]
             return Opaque(("field", repr(v), t[2]))
         if k == "okpayload":
             v = self.term(t[1], args)
